@@ -133,9 +133,62 @@ def check_delays_applied(ctx: Ctx, rule: str) -> None:
                           % (r.lineno, 'tap_values_sparse' if sparse_vals else 'tap_values', what), cd.path, r.lineno, operand='return-without-delays')
 
 
+def check_linearity(ctx: Ctx, rule: str) -> None:
+    """Every term stored or accumulated into the array a transmission returns is homogeneous of degree 1 in the signal."""
+    from ..astutil import degree_set, single_locals
+    M = ctx.model
+    ctx.rule(rule, 'the received signal is linear in the transmitted one: every term stored / accumulated into the returned array of '
+                   'corrupt_data and corrupt_data_in_freq_domain has homogeneity degree exactly 1 in `signal` (no offset, no square, no '
+                   'term that ignores the signal)', floor=2)
+    for q in ('TdlChannel.corrupt_data', 'TdlChannel.corrupt_data_in_freq_domain'):
+        fn = M.func(FA, q)
+        sig = [p for p in fn.params if p != fn.self_name][0]
+        defs = {k: v for k, v in single_locals(fn).items() if k != sig}
+        rets = [n for n in walk_no_nested(fn.node) if isinstance(n, ast.Return) and n.value is not None]
+        outs = set()
+        for r in rets:
+            e = r.value
+            while isinstance(e, ast.Attribute) and e.attr == 'T':
+                e = e.value
+            if isinstance(e, ast.Name):
+                outs.add(e.id)
+        if not outs:
+            ctx.error('%s: %s does not return a named array (cannot tell)' % (rule, q))
+        n_terms = 0
+        for n in walk_no_nested(fn.node):
+            tgt = val = None
+            if isinstance(n, ast.AugAssign) and isinstance(n.op, (ast.Add, ast.Sub)):
+                tgt, val = n.target, n.value
+            elif isinstance(n, ast.Assign) and len(n.targets) == 1 and isinstance(n.targets[0], ast.Subscript):
+                tgt, val = n.targets[0], n.value
+            if tgt is None:
+                continue
+            root = tgt
+            while isinstance(root, ast.Subscript):
+                root = root.value
+            if not (isinstance(root, ast.Name) and root.id in outs):
+                continue
+            n_terms += 1
+            construct = '%s:%s' % (q, norm(tgt)[:40])
+            ctx.instance(rule, construct)
+            ds = degree_set(val, sig, defs)
+            if ds is None:
+                ctx.error('%s: the term `%s` stored into the output of %s is not a product / quotient / sum the degree analysis understands '
+                          '(cannot tell)' % (rule, norm(val)[:70], q))
+            ok = ds == {1}
+            ctx.obligation(rule, construct, ok, {'term': norm(val)[:90], 'degrees_in_signal': sorted(ds)})
+            if not ok:
+                ctx.violation(rule, q, 'the term `%s` added to the received signal has degree(s) %s in `%s`, not 1: the channel is not a linear '
+                              'map of its input (an offset, a term that ignores the signal, or a power of it)' % (norm(val)[:70], sorted(ds), sig),
+                              fn.path, n.lineno, operand='degree')
+        if n_terms == 0:
+            ctx.error('%s: nothing is stored into the returned array of %s (cannot tell)' % (rule, q))
+
+
 def check(ctx: Ctx) -> None:
     M = ctx.model
     check_delays_applied(ctx, 'C03.j')
+    check_linearity(ctx, 'C03.o')
     from ..idioms import check_block_loops_cover
     check_block_loops_cover(ctx, 'C03.k', [FA], floor=3)
     from ..idioms import check_flag_tests_agree
@@ -517,6 +570,12 @@ def synthetic():
 
 _CD = 'TdlChannel.corrupt_data'
 MUTANTS = [
+    Mutant('tap-applied-to-squared-signal', FA, 'TdlChannel.corrupt_data',
+           [('replace', 'output[d:d + num_symbols] += tap_values_sparse[i] * signal', 'output[d:d + num_symbols] += tap_values_sparse[i] * signal * signal')],
+           r'C03\.o:TdlChannel\.corrupt_data:degree'),
+    Mutant('tap-offset-added-to-the-output', FA, 'TdlChannel.corrupt_data',
+           [('replace', 'output[d:d + num_symbols] += tap_values_sparse[i] * signal', 'output[d:d + num_symbols] += tap_values_sparse[i] * signal + tap_values_sparse[i]')],
+           r'C03\.o:TdlChannel\.corrupt_data:degree'),
     Mutant('discretised-powers-converted-twice', FA, 'TdlChannelProfile._calc_discretized_tap_powers_and_delays',
            [('replace', 'discretized_powers_dB = linear2dB(discretized_powers_linear)', 'discretized_powers_dB = linear2dB(linear2dB(discretized_powers_linear))')],
            r'C03\.n:TdlChannelProfile\._calc_discretized_tap_powers_and_delays'),
